@@ -1,3 +1,152 @@
 import Driver.Common
-/-! Driver for property C09 (stub: the model for this property is not built yet). -/
-def main : IO Unit := Driver.run (fun (s : Unit) _ => (s, "unimplemented")) ()
+import TxdbusModel.Client.Endpoints
+import TxdbusModel.Client.Lifecycle
+/-!
+Driver for property C09.  One scenario per line:
+
+  parse <addr> <session|none> <system|none> <pid>      (all str-hex, 6 hex digits per code point)
+      -> `ok <n> <endpoint>*n` | `err <kind>`
+      endpoint = `U:<path>:<args>` | `T:<host>:<port>:<args>`, args = `k=v,k=v` with v = `s<hex>` | `T`, `-` when empty
+
+  life <addr> <ev>*      the repaired code (model of the tree with fixes/C09-*)
+  lifeorig <addr> <ev>*  the pinned, unrepaired code (used by hand to validate the witness theorems)
+      -> `<fx>* | ph=<phase> fired=<results> pend=<serial[t]>* timers=<serial>* dc=<ids> reg=<proxy ids> prox=<id:alive:cbs>*`
+         or `parse-err <kind>` when the address does not parse
+
+  events: af ac ap ao ax hr he cl rp:<serial>:<0|1> ex:<serial> ca:<0|1>:<r> no:<r> cn:<c> pe:<key> pi:<key>
+          pn:<p>:<r> pc:<p>:<c> dp:<p>          reactions r: n c u r
+-/
+open Txdbus.Client.Endpoints Txdbus.Client.Lifecycle Driver
+
+def errName : Err → String
+  | .noSessionEnv => "Exception"
+  | .valueError => "ValueError"
+  | .keyError => "KeyError"
+  | .unboundLocal => "UnboundLocalError"
+  | .typeError => "TypeError"
+  | .unsupported => "unsupported"
+
+def valStr' : Val → String
+  | .str s => "s" ++ charsToHex s
+  | .true => "T"
+
+def argsStr (d : Dict) : String :=
+  if d.isEmpty then "-" else ",".intercalate (d.map fun (k, v) => charsToHex k ++ "=" ++ valStr' v)
+
+def epStr (e : Endpoint) : String :=
+  match e.target with
+  | .unix p => "U:" ++ charsToHex p ++ ":" ++ argsStr e.args
+  | .tcp h p => "T:" ++ charsToHex h ++ ":" ++ toString p ++ ":" ++ argsStr e.args
+
+def optStr? (s : String) : Option (Option Str) :=
+  if s == "none" then some none else (hexToChars? s).map some
+
+def parseReaction : String → Option Reaction
+  | "n" => some .nothing
+  | "c" => some .newCall
+  | "u" => some .unregisterSelf
+  | "r" => some .registerAnother
+  | _ => none
+
+def parseBool : String → Option Bool
+  | "0" => some false
+  | "1" => some true
+  | _ => none
+
+def parseEv (tok : String) : Option Ev :=
+  match tok.splitOn ":" with
+  | ["af"] => some .attemptFails
+  | ["ac"] => some .attemptConnects
+  | ["ap"] => some .authProgress
+  | ["ao"] => some .authOk
+  | ["ax"] => some .authFailed
+  | ["hr"] => some .helloReply
+  | ["he"] => some .helloError
+  | ["cl"] => some .close
+  | ["rp", s, b] => do some (.reply (← s.toNat?) (← parseBool b))
+  | ["ex", s] => do some (.expire (← s.toNat?))
+  | ["ca", b, r] => do some (.call (← parseBool b) (← parseReaction r))
+  | ["no", r] => do some (.notify (← parseReaction r))
+  | ["cn", c] => do some (.cancelNotify (← c.toNat?))
+  | ["pe", k] => do some (.proxyExplicit (← k.toNat?))
+  | ["pi", k] => do some (.proxyIntrospect (← k.toNat?))
+  | ["pn", p, r] => do some (.proxyNotify (← p.toNat?) (← parseReaction r))
+  | ["pc", p, c] => do some (.proxyCancelNotify (← p.toNat?) (← c.toNat?))
+  | ["dp", p] => do some (.dropProxy (← p.toNat?))
+  | _ => none
+
+def resName : ConnectResult → String
+  | .connection => "connection"
+  | .noAddress => "noAddress"
+  | .unreachable => "unreachable"
+  | .helloError => "helloError"
+  | .lostEarly => "lostEarly"
+
+def kindName : ErrKind → String
+  | .lost => "lost"
+  | .introspectionFailed => "introspectionFailed"
+  | .remote => "remote"
+  | .timeout => "timeout"
+
+def fxStr : Fx → String
+  | .attempt ep =>
+    match ep.target with
+    | .unix p => "at:U:" ++ charsToHex p
+    | .tcp h p => "at:T:" ++ charsToHex h ++ ":" ++ toString p
+  | .connectFired r => "cf:" ++ resName r
+  | .callOk s => "ok:" ++ toString s
+  | .callErr s k => "er:" ++ toString s ++ ":" ++ kindName k
+  | .timerCancelled s => "tc:" ++ toString s
+  | .connCb c => "cc:" ++ toString c
+  | .proxyCb p c => "pc:" ++ toString p ++ ":" ++ toString c
+  | .crashed => "crash"
+
+def phaseName : Phase → String
+  | .connecting => "connecting"
+  | .authenticating => "authenticating"
+  | .helloSent => "helloSent"
+  | .ready => "ready"
+  | .helloFailed => "helloFailed"
+  | .exhausted => "exhausted"
+  | .closedEarly => "closedEarly"
+  | .lost => "lost"
+
+def natsStr (l : List Nat) : String :=
+  if l.isEmpty then "-" else ",".intercalate (l.map toString)
+
+def stateStr (s : St) : String :=
+  "ph=" ++ phaseName s.phase ++
+  " fired=" ++ (if s.fired.isEmpty then "-" else ",".intercalate (s.fired.map resName)) ++
+  " pend=" ++ (if s.pending.isEmpty then "-" else
+      ",".intercalate (s.pending.map fun c => toString c.serial ++ (if c.timed then "t" else ""))) ++
+  " timers=" ++ natsStr s.timers ++
+  " dc=" ++ natsStr (s.dcCallbacks.map (·.id)) ++
+  " reg=" ++ natsStr (s.registry.map (·.2)) ++
+  " prox=" ++ (if s.proxies.isEmpty then "-" else
+      ",".intercalate (s.proxies.map fun p =>
+        toString p.id ++ (if p.alive then "a" else "d") ++ "[" ++ ".".intercalate (p.cbs.map fun c => toString c.id) ++ "]"))
+
+def lifeLine (v : Variant) (addr : String) (evs : List String) : String :=
+  match hexToChars? addr, evs.mapM parseEv with
+  | some a, some es =>
+    match getDBusEndpoints { session := none, system := none, pid := "0".toList } a with
+    | .error e => "parse-err " ++ errName e
+    | .ok eps =>
+      let s := run v (connect eps) es
+      " ".intercalate (s.log.map fxStr) ++ " | " ++ stateStr s
+  | _, _ => "bad-input"
+
+def step (line : String) : String :=
+  match words line with
+  | ["parse", a, se, sy, pid] =>
+    match hexToChars? a, optStr? se, optStr? sy, hexToChars? pid with
+    | some a, some se, some sy, some pid =>
+      match getDBusEndpoints { session := se, system := sy, pid := pid } a with
+      | .ok eps => "ok " ++ toString eps.length ++ String.join (eps.map fun e => " " ++ epStr e)
+      | .error e => "err " ++ errName e
+    | _, _, _, _ => "bad-input"
+  | "life" :: a :: evs => lifeLine .repaired a evs
+  | "lifeorig" :: a :: evs => lifeLine .original a evs
+  | _ => "bad-input"
+
+def main : IO Unit := Driver.run (fun (s : Unit) line => (s, step line)) ()
